@@ -88,3 +88,164 @@ Proof.
     (destruct (minv_euclid (d mod M127)) as [binv | ] eqn:MI; [ | discriminate]; intros H; injection H as <-;
      apply (ratio_hash_core n d binv); [apply minv_sound; exact MI | reflexivity]).
 Qed.
+
+(* ---------------------------------------------------------------- floats *)
+Lemma mpow_pos_correct x p : mpow_pos x p = x ^ Zpos p mod M127.
+Proof.
+  pose proof M127_pos. induction p as [p IH | p IH | ]; cbn [mpow_pos].
+  - rewrite IH. rewrite Pos2Z.inj_xI. replace (2 * Z.pos p + 1) with (Z.pos p + Z.pos p + 1) by lia.
+    rewrite !Z.pow_add_r, Z.pow_1_r by lia.
+    rewrite <- Z.mul_mod by lia. rewrite Z.mul_mod_idemp_l by lia. reflexivity.
+  - rewrite IH. rewrite Pos2Z.inj_xO. replace (2 * Z.pos p) with (Z.pos p + Z.pos p) by lia.
+    rewrite Z.pow_add_r by lia. rewrite <- Z.mul_mod by lia. reflexivity.
+  - rewrite Z.pow_1_r. reflexivity.
+Qed.
+Lemma mpow_correct x n : 0 <= n -> mpow x n = x ^ n mod M127.
+Proof.
+  intros Hn. destruct n as [ | p | p]; cbn [mpow]; [ | apply mpow_pos_correct | lia].
+  rewrite Z.pow_0_r. symmetry. apply Z.mod_small. pose proof M127_pos; lia.
+Qed.
+
+Lemma two_pow_127 : 2 ^ 127 mod M127 = 1.
+Proof. reflexivity. Qed.
+Lemma pow_mod_one x q : 0 <= q -> x mod M127 = 1 -> (x ^ q) mod M127 = 1.
+Proof.
+  intros Hq H. pose proof M127_pos. rewrite Zpower_mod by lia. rewrite H, Z.pow_1_l by lia. apply Z.mod_small; lia.
+Qed.
+(** 2^127 = 1 in the field: only the exponent modulo 127 matters (ModularAbs::absm) *)
+Lemma two_pow_red e : 0 <= e -> 2 ^ absm e 127 mod M127 = 2 ^ e mod M127.
+Proof.
+  intros He. unfold absm. pose proof M127_pos.
+  assert (Hq : 0 <= e / 127) by (apply Z.div_pos; lia).
+  assert (Hr : 0 <= e mod 127 < 127) by (apply Z.mod_pos_bound; lia).
+  replace (2 ^ e) with ((2 ^ 127) ^ (e / 127) * 2 ^ (e mod 127))
+    by (rewrite <- Z.pow_mul_r, <- Z.pow_add_r by lia; f_equal; pose proof (Z.div_mod e 127 ltac:(lia)); lia).
+  rewrite (Z.mul_mod ((2 ^ 127) ^ (e / 127))) by lia. rewrite (pow_mod_one (2 ^ 127) (e / 127) Hq two_pow_127).
+  rewrite Z.mul_1_l. rewrite Z.mod_mod by lia. reflexivity.
+Qed.
+Lemma two_pow_inv e : e < 0 -> (2 ^ (- e) * (2 ^ absm e 127 mod M127)) mod M127 = 1.
+Proof.
+  intros He. unfold absm. pose proof M127_pos.
+  rewrite Z.mul_mod_idemp_r by lia.
+  assert (0 <= e mod 127 < 127) by (apply Z.mod_pos_bound; lia).
+  rewrite <- Z.pow_add_r by lia.
+  replace (- e + e mod 127) with (127 * (- (e / 127))) by (rewrite (Z.mod_eq e 127) by lia; ring).
+  assert (e / 127 < 0) by (apply Z.div_lt_upper_bound; lia).
+  rewrite Z.pow_mul_r by lia. apply pow_mod_one; [lia | exact two_pow_127].
+Qed.
+
+Lemma sign_fix s k : let X := (Z.abs (Z.rem s M127) * k) mod M127 in
+  (if Z.rem s M127 <? 0 then - X else X) = Z.sgn s * X.
+Proof.
+  cbn zeta. pose proof M127_pos.
+  destruct (Z.ltb_spec (Z.rem s M127) 0) as [R | R].
+  - assert (s < 0). { destruct (Z.lt_ge_cases s 0); [assumption | ]. pose proof (Z.rem_nonneg s M127 ltac:(lia) ltac:(lia)). lia. }
+    rewrite Z.sgn_neg by lia. lia.
+  - destruct (Z.lt_trichotomy s 0) as [N | [-> | P]].
+    + pose proof (Z.rem_bound_pos_neg s M127 ltac:(lia) ltac:(lia)). assert (E : Z.rem s M127 = 0) by lia.
+      rewrite E. cbn [Z.abs Z.mul]. rewrite Z.mod_0_l by lia. lia.
+    + reflexivity.
+    + rewrite Z.sgn_pos by lia. lia.
+Qed.
+
+Theorem frepr_hash_of B s e h : 2 <= B -> frepr_hash B s e = Some h -> hash_of (fnum B s e) (fden B e) h.
+Proof.
+  intros HB. unfold frepr_hash. pose proof M127_pos.
+  set (eh := if B =? 2 then Some (2 ^ absm e 127 mod M127)
+             else if e <? 0 then minv_euclid (mpow (B mod M127) (- e)) else Some (mpow (B mod M127) e)).
+  destruct eh as [k | ] eqn:EH; [ | discriminate]. intros H0; injection H0 as <-.
+  rewrite (sign_fix s k). rewrite abs_rem_mod, Z.mul_mod_idemp_l by lia.
+  unfold fnum, fden. destruct (Z.leb_spec 0 e) as [He | He].
+  - (* e >= 0: the integer s * B^e *)
+    assert (K : k = B ^ e mod M127).
+    { unfold eh in EH. destruct (Z.eqb_spec B 2) as [-> | ].
+      - injection EH as <-. apply two_pow_red; lia.
+      - destruct (Z.ltb_spec e 0); [lia | ]. injection EH as <-. rewrite mpow_correct by lia. symmetry. apply Zpower_mod; lia. }
+    exists 1. split; [apply Z.mod_small; lia | ].
+    assert (0 < B ^ e) by (apply Z.pow_pos_nonneg; lia).
+    rewrite Z.sgn_mul, (Z.sgn_pos (B ^ e)), Z.mul_1_r by lia. f_equal.
+    rewrite Z.abs_mul, (Z.abs_eq (B ^ e)), Z.mul_1_r by lia. rewrite K. apply Z.mul_mod_idemp_r; lia.
+  - (* e < 0: the fraction s / B^(-e) *)
+    exists k. split; [ | reflexivity].
+    unfold eh in EH. destruct (Z.eqb_spec B 2) as [-> | ].
+    + injection EH as <-. apply two_pow_inv; lia.
+    + destruct (Z.ltb_spec e 0); [ | lia]. apply minv_sound in EH.
+      rewrite mpow_correct in EH by lia. rewrite <- Zpower_mod in EH by lia.
+      rewrite Z.mul_mod_idemp_l in EH by lia. exact EH.
+Qed.
+
+(* ---------------------------------------------------------------- the statement of the property *)
+(** the fraction an operand stands for *)
+Definition frac_of (t : tagged) : option (Z * Z) :=
+  match t with
+  | TU z | TI z => Some (z, 1)
+  | TF B s e => if f_is_inf s e then None else Some (fnum B s e, fden B e)
+  | TQ n d => if d mod M127 =? 0 then None else Some (n, d)    (* no inverse: hashed like an infinity *)
+  | TP _ _ _ => None
+  end.
+
+Lemma hash_asis_of t n d h : match t with TF B _ _ => 2 <= B | TQ _ d => 0 < d | _ => True end ->
+  frac_of t = Some (n, d) -> hash_asis t = Some h -> 0 < d /\ hash_of n d h.
+Proof.
+  destruct t as [z | z | B s e | n' d' | mb eb w]; cbn [frac_of hash_asis]; intros W F H.
+  - injection F as <- <-. injection H as <-. split; [lia | apply int_hash_of].
+  - injection F as <- <-. injection H as <-. split; [lia | apply int_hash_of].
+  - destruct (f_is_inf s e); [discriminate | ]. injection F as <- <-.
+    split; [apply fden_pos; lia | apply frepr_hash_of; assumption].
+  - destruct (Z.eqb_spec (d' mod M127) 0); [discriminate | ]. injection F as <- <-.
+    split; [assumption | apply qrepr_hash_of; assumption].
+  - discriminate.
+Qed.
+
+(** Numerically equal numbers of different types feed the hasher the same i128 *)
+Theorem hash_equal_values a b n1 d1 n2 d2 ha hb :
+  match a with TF B _ _ => 2 <= B | TQ _ d => 0 < d | _ => True end ->
+  match b with TF B _ _ => 2 <= B | TQ _ d => 0 < d | _ => True end ->
+  frac_of a = Some (n1, d1) -> frac_of b = Some (n2, d2) -> n1 * d2 = n2 * d1 ->
+  hash_asis a = Some ha -> hash_asis b = Some hb -> ha = hb.
+Proof.
+  intros Wa Wb Fa Fb EQ Ha Hb.
+  destruct (hash_asis_of a n1 d1 ha Wa Fa Ha) as [P1 H1]. destruct (hash_asis_of b n2 d2 hb Wb Fb Hb) as [P2 H2].
+  exact (hash_of_consistent n1 d1 ha n2 d2 hb P1 P2 H1 H2 EQ).
+Qed.
+
+(** frac_of is the exact value *)
+Lemma frac_of_value t n d : frac_of t = Some (n, d) -> value_of (untag t) = XFin n d.
+Proof.
+  destruct t as [z | z | B s e | n' d' | mb eb w]; cbn [frac_of untag value_of]; intros F; try discriminate.
+  - injection F as <- <-; reflexivity.
+  - injection F as <- <-; reflexivity.
+  - destruct (f_is_inf s e) eqn:I; [discriminate | ]. injection F as <- <-. apply fval_fin; exact I.
+  - destruct (d' mod M127 =? 0); [discriminate | ]. injection F as <- <-. reflexivity.
+Qed.
+
+Example hash_equal_values_ex :
+  hash_asis (TF 10 5 (-1)) = Some 85070591730234615865843651857942052864 /\
+  hash_asis (TQ 1 2) = Some 85070591730234615865843651857942052864 /\
+  hash_asis (TF 2 1 (-1)) = Some 85070591730234615865843651857942052864.
+Proof. vm_compute. auto. Qed.
+
+(** the executable specification used by the oracle (lowest terms, then the inverse) is the same function *)
+Lemma spec_hash_of n d i : minv_euclid (d / Z.gcd n d) = Some i ->
+  hash_of (n / Z.gcd n d) (d / Z.gcd n d) (spec_hash_fin n d).
+Proof.
+  intros MI. unfold spec_hash_fin. rewrite MI. pose proof M127_pos. exists i. split; [apply minv_sound; exact MI | ].
+  rewrite Z.mul_mod_idemp_l by lia. reflexivity.
+Qed.
+
+Theorem hash_asis_is_spec a n d h i : 
+  match a with TF B _ _ => 2 <= B | TQ _ d => 0 < d | _ => True end ->
+  frac_of a = Some (n, d) -> hash_asis a = Some h -> minv_euclid (d / Z.gcd n d) = Some i ->
+  h = spec_hash_fin n d.
+Proof.
+  intros W F H MI. destruct (hash_asis_of a n d h W F H) as [Pd Hh].
+  pose proof (spec_hash_of n d i MI) as Hs.
+  assert (G : 0 < Z.gcd n d).
+  { pose proof (Z.gcd_nonneg n d). destruct (Z.eq_dec (Z.gcd n d) 0) as [E | ]; [apply Z.gcd_eq_0_r in E; lia | lia]. }
+  destruct (Z.gcd_divide_l n d) as [qn En]. destruct (Z.gcd_divide_r n d) as [qd Ed].
+  assert (Qn : n / Z.gcd n d = qn) by (rewrite En at 1; apply Z.div_mul; lia).
+  assert (Qd : d / Z.gcd n d = qd) by (rewrite Ed at 1; apply Z.div_mul; lia).
+  apply (hash_of_consistent n d h (n / Z.gcd n d) (d / Z.gcd n d) (spec_hash_fin n d)); auto.
+  - rewrite Qd. nia.
+  - rewrite Qn, Qd. rewrite En at 1. rewrite Ed at 2. ring.
+Qed.
